@@ -147,6 +147,15 @@ func c04Specs(tier string, seed int) []c04Spec {
 			with(func(s *c04Spec) { s.Kind = "uncovered gap-31-december-and-1-january"; s.Gaps = []string{iso(y+1, 12, 31), iso(y+2, 1, 1)} })
 			with(func(s *c04Spec) { s.Kind = "uncovered whole-year-missing"; s.NoYear = y + 1 })
 			with(func(s *c04Spec) { s.Kind = "uncovered whole-year-missing"; s.NoYear = y + 2 })
+			// the window ends inside the missing year (later years are present in the series)
+			with(func(s *c04Spec) { s.Kind = "uncovered whole-year-missing"; s.NoYear = y + 1; s.SimEnd = iso(y+1, 6, 30) })
+			with(func(s *c04Spec) { s.Kind = "uncovered whole-year-missing"; s.NoYear = y + 1; s.SimEnd = iso(y+1, 12, 31); s.To = iso(y+3, 12, 31) })
+			// windows ending inside / right after the other non-covered stretches
+			with(func(s *c04Spec) { s.Kind = "uncovered gap-at-31-december"; s.Gaps = []string{iso(y+1, 12, 31)}; s.SimEnd = iso(y+2, 1, 1) })
+			with(func(s *c04Spec) { s.Kind = "uncovered gap-at-31-december"; s.Gaps = []string{iso(y+1, 12, 31)}; s.SimEnd = iso(y+1, 12, 31) })
+			with(func(s *c04Spec) { s.Kind = "uncovered gap-at-1-january"; s.Gaps = []string{iso(y+1, 1, 1)}; s.SimEnd = iso(y+1, 1, 1) })
+			with(func(s *c04Spec) { s.Kind = "uncovered gap-inside-year"; s.Gaps = []string{iso(y+1, 7, 15)}; s.SimEnd = iso(y+1, 7, 15) })
+			with(func(s *c04Spec) { s.Kind = "uncovered series-ends-before-end-date same-year"; s.To = iso(y+1, 7, 14); s.SimEnd = iso(y+1, 7, 15) })
 		}
 	}
 	return out
@@ -162,9 +171,9 @@ func init() {
 			"layout 2 derives the mean temperature from min/max; layout 1 files always start on 1 January"},
 		Bound: func(t string) string {
 			if t == "quick" {
-				return "3 layouts x 4 start years (all leap phases, window over 2000) x {windows of 1-3 years x 3 start days x 4 series starts x 2 end days; 6 normalisation cases; 24 non-covering shapes}"
+				return "3 layouts x 4 start years (all leap phases, window over 2000) x {windows of 1-3 years x 3 start days x 4 series starts x 2 end days; 6 normalisation cases; 31 non-covering shapes}"
 			}
-			return "3 layouts x 8 start years x {windows of 1-4 years x 3 start days x 4 series starts x 2 end days; 6 normalisation cases; 24 non-covering shapes}"
+			return "3 layouts x 8 start years x {windows of 1-4 years x 3 start days x 4 series starts x 2 end days; 6 normalisation cases; 31 non-covering shapes}"
 		},
 		Budget: func(t string) time.Duration {
 			if t == "quick" {
